@@ -58,6 +58,9 @@ fn model_attr_rows(m: &Model) -> Vec<Row> {
 struct Snapshot {
     tables: Vec<(String, Option<Vec<Row>>)>,
     attrs: Option<Vec<Row>>,
+    /// What the definition *does*: key-predicate and key-ordered queries per table with a key
+    /// (sql, result, compare as a sequence?)
+    probes: Vec<(String, Option<Vec<Row>>, bool)>,
 }
 
 async fn snapshot(db: &Db, model: &Model) -> Snapshot {
@@ -72,7 +75,26 @@ async fn snapshot(db: &Db, model: &Model) -> Snapshot {
         .await
         .rows()
         .map(|r| attr_rows(r, &names));
-    Snapshot { tables, attrs }
+    let mut probes = vec![];
+    for (n, (def, rows)) in &model.tables {
+        let Some(pk) = def.pk else { continue };
+        if rows.is_empty() {
+            continue;
+        }
+        let k = &def.cols[pk].name;
+        let mut keys: Vec<&Val> = rows.iter().map(|r| &r[pk]).collect();
+        keys.sort();
+        let mid = keys[keys.len() / 2].sql();
+        for (sql, seq) in [
+            (format!("SELECT * FROM {n} WHERE {k} <= {mid}"), false),
+            (format!("SELECT * FROM {n} WHERE {k} > {mid}"), false),
+            (format!("SELECT {k} FROM {n} ORDER BY {k}"), true),
+        ] {
+            let r = db.exec(&sql).await.rows().cloned();
+            probes.push((sql, r, seq));
+        }
+    }
+    Snapshot { tables, attrs, probes }
 }
 
 /// Is `rows` sorted by `keys` (col index, desc) when NULLs are placed `nulls_first` (in the
@@ -530,6 +552,33 @@ pub async fn run(cx: &mut Ctx) {
                         )),
                         _ => {}
                     }
+                    // the definition also has to *behave* as before: key predicates, key order
+                    for ((sql, b, seq), (_, a, _)) in before.probes.iter().zip(after.probes.iter()) {
+                        cx.stats.evaluations += 1;
+                        let same = match (b, a) {
+                            (Some(b), Some(a)) if *seq => b == a,
+                            (Some(b), Some(a)) => multiset_diff(a, b).is_none(),
+                            (Some(_), None) => false,
+                            _ => true,
+                        };
+                        if !same {
+                            cx.violate(Violation::new(
+                                "C03",
+                                "definition-changed-across-reopen",
+                                Some(i),
+                                format!(
+                                    "{sql}: before shutdown {} rows [{}], after reopen {}",
+                                    b.as_ref().map(|r| r.len()).unwrap_or(0),
+                                    rows_brief(b.as_deref().unwrap_or(&[]), 8),
+                                    match a {
+                                        Some(a) => format!("{} rows [{}]", a.len(), rows_brief(a, 8)),
+                                        None => "an error".into(),
+                                    }
+                                ),
+                            ).with_sig("behaviour"));
+                            break;
+                        }
+                    }
                     // dropped tables must stay dropped
                     for n in dropped_names(&steps[..=i], &model) {
                         let o = db.exec(&format!("SELECT * FROM {n}")).await;
@@ -605,7 +654,9 @@ pub async fn run(cx: &mut Ctx) {
                     }
                 }
                 // ordered scan of a primary-key table is in key order
-                if let Some(pk) = def.pk {
+                // (a key declared as a table constraint makes its column NOT NULL but is not a
+                // sort key of the storage)
+                if let (Some(pk), false) = (def.pk, def.pk_constraint) {
                     let mut cols: Vec<u32> = (0..def.cols.len() as u32).collect();
                     // sort key must be in the column list; rotate so it is not always first
                     cols.rotate_left(i % def.cols.len());
@@ -1099,7 +1150,7 @@ async fn check_range(cx: &mut Ctx, db: &Db, q: &Query, model: &Model, at: usize)
     }
     // (3) storage level, INT keys at storage column 0 only, on a store that records first keys
     // (the storage API's contract for a range scan)
-    if def.cols[pk].ty == Ty::Int && pk == 0 && cx.case.knobs().record_first_key {
+    if def.cols[pk].ty == Ty::Int && pk == 0 && !def.pk_constraint && cx.case.knobs().record_first_key {
         let mut lo: Option<(bool, i32)> = None;
         let mut hi: Option<(bool, i32)> = None;
         // one range for the storage API: only when the key conjuncts are at most one lower and
